@@ -91,42 +91,48 @@ CHECKS = {
         technique="Coq proof (composition with the C04 round trip) over a Gallina model of the folding handler + correspondence through the binary"),
     "C09": dict(
         category="other",
-        text="Machine-checked (Props/C09.v) over the model of formatting.rs (Model/Format.v): the handler's single edit covers "
-             "exactly the whole document (C09_whole_edit, C09_whole_document_covers); every pair of token classes the printers "
-             "glue without a separator lexes back to the same two tokens (C09_glue_table: a vm_compute sweep over the finite "
-             "table, lifted by C09_glue_lift), and re-printed literals keep their value (C09_int/hex/char_roundtrip). The "
-             "structural half (the printers emit exactly the non-comment tokens of each construct: C09_full_statement) needs "
-             "the parser round trip and is stated, not proved. It is decided per input by the check: model = real formatter on "
-             "generated programs x layouts x options (extracted judge + coqc VM sample), and an implementation oracle re-lexes "
-             "the formatted text with the real lexer (same non-comment kinds and literal values), re-opens it (same "
-             "diagnostics up to layout) and checks the edit range.",
+        text="Machine-checked (Props/C09.v, 16 theorems) over the model of formatting.rs (Model/Format.v). For EVERY abstract "
+             "program of the grammar without comments - and with comments in leading positions (in front of type / proc / var / a "
+             "parameter / the first token of a statement) - every token vector with its kinds, and every option setting: the "
+             "formatter emits exactly the spellings of the program's tokens, in order, separated only by whitespace that is "
+             "non-empty wherever two spellings would otherwise merge (C09_structure, C09_structure_lead, by structural induction "
+             "over the abstract syntax), hence the formatted text lexes to the same non-comment token kinds AND literal values "
+             "with no lexical error (C09_tokens, C09_tokens_lead, C09_document, via C06 conformance); the single edit covers "
+             "exactly the whole document (C09_whole_edit, C09_whole_document_covers). Stated, not proved: programs with comments "
+             "in the gaps where the printer hoists or loses them (C10), and equality of diagnostics. Decided per input there: "
+             "model = real formatter on generated programs x layouts x options, and an implementation oracle re-lexes the "
+             "formatted text with the real lexer, re-opens it (same diagnostics up to layout) and checks the edit range.",
         design_ref="DESIGN.md section 5, C09",
-        technique="Coq proof of the separator table and literal round trips over a Gallina model of the formatter + correspondence and re-lex/re-analyse oracle through the binary"),
+        technique="Coq proof (structural induction over the abstract syntax: the printers emit the program's token spellings; separator table; lexical conformance) over a Gallina model of the formatter + correspondence and re-lex/re-analyse oracle through the binary"),
     "C10": dict(
         category="other",
         text="The property does NOT hold for the code as it is: the faithful model refutes it (Props/C10.v C10_refuted, witness "
              "`proc main() {<LF>// c<LF>}`), and the losses are structural (comments skipped by tag parsers in front of closing "
              "tokens, inside headers and expressions, before EOF are never re-attached) - recorded as 22 known findings "
-             "C10-gap-<kind>, one per losing gap kind, not repaired. Machine-checked for the model: the two comment helpers "
-             "emit every comment of their slice exactly once and in order (C10_all_comments_once, C10_leading_comments_once/"
-             "_prefix, C10_leaf_statement_comments). The check puts one comment into EVERY token gap of generated programs in "
-             "turn (exhaustive per program) plus multi-comment layouts: a comment lost in a gap kind that is not listed, or any "
-             "duplicated / reordered comment, is a violation; listed kinds print KNOWN-FINDING while their witnesses still fail.",
+             "C10-gap-<kind>, one per losing gap kind, not repaired. Machine-checked on the positive side: for every program whose "
+             "comments stand in leading positions (in front of type / proc / var / a parameter / the first token of a statement), "
+             "every layout and option setting, the formatted text lexes to the same comment bodies in the same order - none lost, "
+             "none duplicated (C10_lead_comments_kept); the two comment helpers emit every comment of their slice exactly once "
+             "and in order. The check puts one comment into EVERY token gap of generated programs in turn (exhaustive per program) "
+             "plus multi-comment layouts: a comment lost in a gap kind that is not listed, or any duplicated / reordered comment, "
+             "is a violation; listed kinds print KNOWN-FINDING while their witnesses still fail.",
         design_ref="DESIGN.md section 5, C10",
-        technique="Coq refutation witness + proofs about the comment helpers over a Gallina model of the formatter + exhaustive per-program gap campaign discriminating known gap kinds"),
+        technique="Coq refutation witness + proof that leading comments are kept exactly once + exhaustive per-program gap campaign discriminating known gap kinds"),
     "C11": dict(
         category="other",
-        text="Machine-checked (Props/C11.v, 12 theorems) over the models of the formatter and the parser, for ALL documents: "
-             "the handler answers null exactly when the formatted text equals the document (C11_null_iff, C11_whole_edit); "
-             "the output is canonical - two token vectors with the same kinds (any whitespace, any byte ranges) format to the "
-             "same text (C11_canonical, via C11_parser_reads_kinds_only and C11_printer_reads_kinds_only); indentation honours "
-             "the options: every line produced for a member of a block / branch / loop body / procedure body starts with one "
-             "more unit (tabSize spaces or one tab) than its parent, by induction over nesting (C11_indent_lines, "
-             "C11_block_lines, C11_nested_lines, C11_proc_*). Idempotence (C11_idempotent_full_statement) needs the re-parse of "
-             "the output and is stated, not proved; the check decides it per input: format, apply with an independent edit "
-             "model, format again => null, for all 10 option settings, plus two-layout canonicity and exact depth x unit per line.",
+        text="Machine-checked (Props/C11.v, 16 theorems) over the models of the formatter and the parser. For ALL documents: "
+             "the handler answers null exactly when the formatted text equals the document; the output is canonical - two token "
+             "vectors with the same kinds (any whitespace) format to the same text (C11_canonical); indentation honours the "
+             "options: every line of a member of a block / branch / loop body / procedure body starts with one more unit (tabSize "
+             "spaces or one tab) than its parent, by induction over nesting. For EVERY abstract program without comments or with "
+             "comments in leading positions, every layout and option setting: formatting the formatted text again answers null "
+             "(C11_idempotent_comment_free, C11_idempotent_lead, C11_idempotent_document*; composes the structural theorem of C09, "
+             "lexical conformance and the parser round trip). Stated, not proved: idempotence for programs with comments in the "
+             "gaps where the printer hoists or loses them. The check decides those per input: format, apply with an independent "
+             "edit model, format again => null, for all 10 option settings, two-layout canonicity, exact depth x unit per line, "
+             "and history independence (same text, different options in a row, one server).",
         design_ref="DESIGN.md section 5, C11",
-        technique="Coq proof (relational kinds-only argument over parser and printers; induction over nesting for indentation) + correspondence and format-twice oracle through the binary"),
+        technique="Coq proof (kinds-only canonicity, indentation by induction over nesting, idempotence via the structural theorem + parser round trip) + correspondence and format-twice oracle through the binary"),
     "C02": dict(
         category="other",
         text="Machine-checked for ALL Unicode texts (Props/C02.v): AnalyzedSource::new never panics and always terminates "
